@@ -253,7 +253,7 @@ def trace_prefix(replayfile, upto):
             if i > upto:
                 break
             c = json.loads(line)["c"]
-            if c.get("kind") == "init":
+            if c.get("kind") in ("init", "mcinit", "inject"):
                 steps = []
             steps.append(c)
     return steps
